@@ -5,6 +5,7 @@ import (
 	"fmt"
 	"math/rand"
 	"runtime"
+	"sync"
 
 	"verif/harness/evid"
 	"verif/harness/oracle"
@@ -62,6 +63,7 @@ func C05(cfg Cfg) int {
 	c05MixedBatches(run, cfg, r)
 	c05Shifted(run, cfg, r)
 	c05Wire(run, cfg)
+	raceChild(run, cfg, "C05race")
 	return run.Finish()
 }
 
@@ -547,4 +549,87 @@ func c05Shifted(run *evid.Run, cfg Cfg, r *rand.Rand) {
 			}
 		}
 	}
+}
+
+func init() { Children["C05race"] = c05RaceChild }
+
+// c05RaceChild runs the three signing endpoints at the same moment, under the race detector: generic requests
+// (caller-chosen data, unrestricted domains) next to attestations and proposals for other keys.  Whatever else is
+// in flight, a signature returned by the generic endpoint is over the request's own (data, domain) - never over
+// the caller's data with the attester or proposer domain of a neighbouring request.
+func c05RaceChild(cfg Cfg) int {
+	run := evid.New("C05race", cfg.Tier, cfg.Seed, "exploration")
+	r := cfg.Rand("c05race")
+	env, err := NewEnv(run, cfg, "c05race", rig.StackOpts{})
+	if err != nil {
+		fmt.Println("cannot build env:", err)
+		return 3
+	}
+	defer env.Stack.Close()
+	rounds := cfg.N(60, 600)
+	signed, own := 0, 0
+	for round := 0; round < rounds; round++ {
+		env.FreshKeys(16)
+		gs := make([]*GenCase, 8)
+		for i := range gs {
+			gs[i] = wfGen(r, env, i)
+		}
+		as := make([]*AttCase, 4)
+		for i := range as {
+			as[i] = wfAtt(r, env, 8+i)
+		}
+		ps := make([]*PropCase, 4)
+		for i := range ps {
+			ps[i] = wfProp(r, env, 12+i)
+		}
+		sigs := make([][]byte, len(gs))
+		var wg sync.WaitGroup
+		start := make(chan struct{})
+		via := Via(round % 2)
+		for i := range gs {
+			wg.Add(1)
+			go func(i int) {
+				defer wg.Done()
+				<-start
+				if res, sig := env.SignGen(via, gs[i]); res == core.ResultSucceeded {
+					sigs[i] = sig
+				}
+			}(i)
+		}
+		for i := range as {
+			wg.Add(2)
+			go func(i int) { defer wg.Done(); <-start; env.SignAtt(via, as[i]) }(i)
+			go func(i int) { defer wg.Done(); <-start; env.SignProp(via, ps[i]) }(i)
+		}
+		close(start)
+		wg.Wait()
+		for i, sig := range sigs {
+			if len(sig) == 0 {
+				continue
+			}
+			signed++
+			root := gs[i].SigningRoot()
+			if ok, _ := oracle.VerifySig(gs[i].Key.Pub, root[:], sig); ok {
+				own++
+				continue
+			}
+			var restricted [][]byte
+			for _, a := range as {
+				restricted = append(restricted, a.Data.Domain)
+			}
+			for _, p := range ps {
+				restricted = append(restricted, p.Data.Domain)
+			}
+			for _, dom := range restricted {
+				x := oracle.SigningRoot([32]byte(b32(gs[i].Data.Data)), dom)
+				if ok, _ := oracle.VerifySig(gs[i].Key.Pub, x[:], sig); ok {
+					fmt.Printf("CHILD-VIOLATION the generic endpoint returned a signature over the caller's data under the restricted domain %x of a request in flight at the same time (round %d)\n", dom, round)
+				}
+			}
+		}
+	}
+	fmt.Printf("RACE-CHILD operations %d\n", rounds*16)
+	fmt.Printf("RACE-CHILD generic_signatures %d\n", signed)
+	fmt.Printf("RACE-CHILD generic_signatures_over_own_root %d\n", own)
+	return 0
 }
